@@ -372,6 +372,7 @@ func runC16(r *core.Run) (bool, string) {
 	r.SetRule("strings: boundary values (10^k, 10^k±1, 9·10^k, 2^k, 2^k±1, repdigits, 0, MaxUint64) plus seeded random values with spread digit counts, each compared with a repeated-division decimal conversion and entered in a string→value map (injectivity over everything evaluated), distinct by value; " +
 		"MapClear: 8 key/value type combinations (incl. a named map type, struct/interface keys, pointer/slice values) × sizes {0,1,2,100,10000}, distinct by (type,size), plus a separate NaN-key atom; Assume/Assert: both functions × both arguments, repeated; " +
 		"WaitTimeout: schedules = class {none, signal-before, signal-during, signal-at-timeout, signal-after-timeout, broadcast-during with 1–4 waiters, storm} × {fresh Cond, Cond reused after 1–3 timed-out calls}, distinct by (class, state, timeout, waiters, earlier calls); lock state observed through a tracking sync.Locker given to sync.NewCond; " +
+		"several timed waiters on one Cond (waittimeout_multi_* keys): full grid k ∈ {2,3,4} WaitTimeout callers parked in start order × timeouts {equal, increasing, decreasing, all 60 s} × signals {none, one Signal, Signals for all but one, Broadcast} × sent {before, between, after} the deadlines × {fresh, reused Cond} × a plain cond.Wait waiter {absent, at the head, second} in the queue; every timed waiter must be back by its own timeout + Δ with the lock held, and j Signals (a Broadcast) sent ≥ 20 ms before the first deadline while all were parked must bring back ≥ j (all) within Δ; " +
 		"class signal-held-across-expiry (waittimeout_hold_* keys): full grid timeout × (signaller takes the lock −20…+5 ms around the expiry) × (keeps it 0…40 ms after Signal/Broadcast) on fresh and reused Conds, run in child processes that contain no goroutine or timer besides caller, signaller and WaitTimeout's own; " +
 		"concurrency layer (conc_* keys): every primitive of package machine that takes no caller-shared state (UInt64ToString, UInt64/32 Put+Get, MapClear, Assume/Assert, RandomUint64, Linearize/TimeNow/Sleep/NewProph, WaitTimeout on a private Cond, and a mix of them) × {2,3,8,16} goroutines released together, each on state private to it and checking its own results against the sequential oracles, once in this binary (wrong results) and once in a -race build (DATA RACE blocks with a /repo frame, de-duplicated by outermost /repo frame pair); distinct by (child, primitive, goroutines); " +
 		"the call must return with the lock held; 'never returns' is decided only by the Go runtime's 'all goroutines are asleep - deadlock!' report of that process (a wall-clock watchdog only yields inconclusive); the observed position of the signaller's lock interval relative to the expiry is recorded per schedule")
@@ -387,6 +388,10 @@ func runC16(r *core.Run) (bool, string) {
 	c16Maps(r)
 	c16AssumeAssert(r)
 	c16WaitTimeout(r)
+	c16WaitTimeoutMulti(r)
+	if r.Replay == "" && r.NumViolations() == 0 && (r.GetCount("waittimeout_multi_schedules_completed") < 20 || r.GetCount("waittimeout_multi_signal_clause_exercised") < 5) {
+		return false, "several-timed-waiters schedules: fewer than 20 completed or the signal clause exercised fewer than 5 times"
+	}
 	if r.Replay == "" {
 		c16WaitTimeoutHold(r)
 		if r.NumViolations() == 0 && r.GetCount("waittimeout_hold_lock_observed_held_across_expiry_and_call_returned") < 5 {
